@@ -3,6 +3,8 @@
    ascent/src/aggregators.rs, values in Z, panics explicit). *)
 From Coq Require Import List ZArith Permutation.
 From AV Require Import Agg.AggModel Agg.AggLaws.
+From AV Require Import Agg.AggClauseModel.
+From AV Require Import Agg.AggClauseLaws.
 Import ListNotations.
 Open Scope Z_scope.
 
@@ -59,3 +61,65 @@ Print Assumptions c17_min. Print Assumptions c17_max. Print Assumptions c17_sum.
 Print Assumptions c17_mean. Print Assumptions c17_not. Print Assumptions c17_percentile_total.
 Print Assumptions c17_percentile_empty. Print Assumptions c17_percentile_rank. Print Assumptions c17_percentile_endpoints.
 Print Assumptions c17_rank_monotone. Print Assumptions c17_permutation_invariant. Print Assumptions c17_example.
+
+(* ---- program level: one `agg` body item of a rule (Agg/AggClauseModel.v: key lookup + aggregator + continuation) ---- *)
+
+(* "on empty input sum yields zero and count yields 0", min / max / mean / percentile nothing, not() its unit -- for every
+   binding whose key matches no row, whether the relation has other rows or none at all *)
+Theorem c17_clause_empty_input : forall k p col rows, matching p rows = [] ->
+  agg_clause k p col rows = Ok (match k with ASum | ACount | ANot => [(0, 1)] | _ => [] end).
+Proof. exact agg_clause_no_match_explicit. Qed.
+Theorem c17_clause_empty_group_is_empty_relation : forall k p col rows, matching p rows = [] ->
+  agg_clause k p col rows = agg_clause k p col [].
+Proof. exact agg_clause_empty_group_eq. Qed.
+
+(* the item applies the aggregator's definition to the aggregated column of exactly the rows that agree with the key *)
+Theorem c17_clause_matching : forall p rows r, In r (matching p rows) <-> In r rows /\ Forall2 col_ok p r.
+Proof. exact matching_in. Qed.
+Theorem c17_clause_sum_count_not : forall p col rows,
+  agg_clause ASum p col rows = Ok [(zsum (group p col rows), 1)] /\
+  agg_clause ACount p col rows = Ok [(zlen (group p col rows), 1)] /\
+  agg_clause ANot p col rows = Ok (if is_nil (matching p rows) then [(0, 1)] else []).
+Proof. intros p col rows; repeat split; [exact (agg_clause_sum p col rows) | exact (agg_clause_count p col rows) | exact (agg_clause_not p col rows)]. Qed.
+Theorem c17_clause_min_max_mean : forall p col rows, group p col rows <> [] ->
+  (exists m, agg_clause AMin p col rows = Ok [(m, 1)] /\ is_min m (group p col rows)) /\
+  (exists m, agg_clause AMax p col rows = Ok [(m, 1)] /\ is_max m (group p col rows)) /\
+  agg_clause AMean p col rows = Ok [(zsum (group p col rows), zlen (group p col rows))] /\ zlen (group p col rows) > 0.
+Proof. intros p col rows H; split; [exact (agg_clause_min p col rows H) | split; [exact (agg_clause_max p col rows H) | exact (agg_clause_mean p col rows H)]]. Qed.
+Theorem c17_clause_percentile : forall pn pd p col rows, group p col rows <> [] -> 0 < pd -> 0 <= pn <= 100 * pd ->
+  exists x, agg_clause (APct pn pd) p col rows = Ok [(x, 1)] /\ In x (group p col rows) /\
+            rank_elem (Z.min ((zlen (group p col rows) * pn) / (pd * 100)) (zlen (group p col rows) - 1)) (group p col rows) = Some x.
+Proof. exact agg_clause_pct. Qed.
+Theorem c17_clause_total : forall k p col rows, exists r, agg_clause k p col rows = Ok r.
+Proof. exact agg_clause_total. Qed.
+Theorem c17_clause_row_order_irrelevant : forall k p col rows rows', Permutation rows rows' ->
+  agg_clause k p col rows = agg_clause k p col rows'.
+Proof. exact agg_clause_perm. Qed.
+
+(* a code generator may let the aggregated relation take part in the rule's "some relation is empty" short circuit
+   exactly for the aggregators that yield nothing on empty input; for sum, count and not() the short circuit is refuted *)
+Theorem c17_clause_skip_sound_iff : forall k,
+  (forall p col rows, agg_clause_skipping_empty_rel k p col rows = agg_clause k p col rows) <->
+  match k with ASum | ACount | ANot => False | _ => True end.
+Proof. exact skipping_sound_iff_explicit. Qed.
+Theorem c17_clause_skip_variant_refuted : exists p col rows, agg_clause_skipping_empty_rel ASum p col rows <> agg_clause ASum p col rows.
+Proof. exact (skipping_refuted ASum eq_refl). Qed.
+Theorem c17_clause_guard_over_clauses_sound : forall (clause_rels : list (list row)) (body : list (Z * Z)),
+  (existsb is_nil clause_rels = true -> body = []) -> rule_guard clause_rels body = body.
+Proof. intros cr body; exact (rule_guard_sound cr body). Qed.
+
+Example c17_clause_example :
+  agg_clause ASum [Some 1; None] 1 [[1; 5]; [2; 3]; [1; -2]] = Ok [(3, 1)] /\
+  agg_clause ASum [Some 0; None] 1 [[1; 5]; [2; 3]; [1; -2]] = Ok [(0, 1)] /\
+  agg_clause ASum [Some 0; None] 1 [] = Ok [(0, 1)] /\
+  agg_clause AMean [Some 1; None; None] 1 [[1; 4; 0]; [1; 4; 1]; [1; -1; 0]] = Ok [(7, 3)] /\
+  agg_clause (APct 50 1) [None; None; Some 1] 1 [[1; 4; 1]; [2; 4; 1]; [1; -1; 1]; [0; 9; 0]] = Ok [(4, 1)] /\
+  agg_clause AMin [Some 0; None] 1 [] = Ok [] /\
+  agg_clause_skipping_empty_rel ASum [Some 0; None] 1 [] = Ok [].
+Proof. vm_compute. repeat split. Qed.
+
+Print Assumptions c17_clause_empty_input. Print Assumptions c17_clause_empty_group_is_empty_relation.
+Print Assumptions c17_clause_matching. Print Assumptions c17_clause_sum_count_not. Print Assumptions c17_clause_min_max_mean.
+Print Assumptions c17_clause_percentile. Print Assumptions c17_clause_total. Print Assumptions c17_clause_row_order_irrelevant.
+Print Assumptions c17_clause_skip_sound_iff. Print Assumptions c17_clause_skip_variant_refuted.
+Print Assumptions c17_clause_guard_over_clauses_sound. Print Assumptions c17_clause_example.
